@@ -5,6 +5,7 @@ import (
 	"context"
 	"fmt"
 	"runtime"
+	"strconv"
 	"sync"
 	"testing"
 	"testing/synctest"
@@ -556,6 +557,111 @@ func TestC15Stall(t *testing.T) {
 					}
 				})
 				rec.Case(true, desc, "ping-while-a-write-is-held-up")
+				if msg != "" {
+					failCase(t, "C15", desc, "%s", msg)
+				}
+			}
+		}
+	}
+	// A Ping whose own frame cannot leave (zero window) while its context runs out, and a peer that
+	// meanwhile sends Pongs carrying that Ping's payload (payloads are a counter: a peer can guess
+	// them) - once, twice, three times: the call returns an error when its context ends, the reader
+	// stays alive (it answers a Ping of the peer afterwards), a later Ping works, CloseNow returns.
+	for _, client := range []bool{false, true} {
+		for _, early := range []int{1, 2, 3} {
+			for _, closeRead := range []bool{false, true} {
+				desc := fmt.Sprintf("stuck-ping|client=%v|earlyPongs=%d|closeRead=%v", client, early, closeRead)
+				var msg string
+				synctest.Test(t, func(t *testing.T) {
+					e := newEnv(t)
+					defer e.Teardown()
+					lc, err := e.open(connSpec{Client: client})
+					if err != nil {
+						msg = "handshake: " + err.Error()
+						return
+					}
+					p := lc.Peer
+					answer := false
+					var amu sync.Mutex
+					p.onFrame = func(f ref.Frame) {
+						amu.Lock()
+						a := answer
+						amu.Unlock()
+						if f.Opcode == ref.OpPing && a {
+							p.send(ref.Frame{Fin: true, Opcode: ref.OpPong, Payload: f.Payload})
+						}
+					}
+					p.start(e)
+					if closeRead {
+						lc.C.CloseRead(context.Background())
+					} else {
+						e.Go(func() {
+							for {
+								if _, _, err := lc.C.Read(context.Background()); err != nil {
+									return
+								}
+							}
+						})
+					}
+					// learn the payload scheme from a first, ordinary Ping
+					amu.Lock()
+					answer = true
+					amu.Unlock()
+					if err := lc.C.Ping(context.Background()); err != nil {
+						msg = "first Ping failed: " + err.Error()
+						return
+					}
+					amu.Lock()
+					answer = false
+					amu.Unlock()
+					fr, _ := p.snapshot()
+					var first []byte
+					for _, f := range fr {
+						if f.Opcode == ref.OpPing {
+							first = f.Payload
+						}
+					}
+					n, perr := strconv.Atoi(string(first))
+					if perr != nil {
+						return // payloads are not a counter on this tree: nothing to guess
+					}
+					guess := []byte(strconv.Itoa(n + 1))
+					lc.End.SetInBudget(0)
+					pctx, cancel := context.WithTimeout(context.Background(), 2*time.Second)
+					defer cancel()
+					var pingErr error
+					d := e.Call(func() { pingErr = lc.C.Ping(pctx) })
+					synctest.Wait() // the Ping's frame is stuck in the transport
+					for i := 0; i < early; i++ {
+						p.send(ref.Frame{Fin: true, Opcode: ref.OpPong, Payload: guess})
+					}
+					if !within(d, 12*time.Second) {
+						msg = fmt.Sprintf("Ping did not return within 12 s although its context ended after 2 s (its frame was stuck in the transport and %d Pongs with its payload %q had arrived early)", early, guess)
+						lc.End.SetInBudget(-1)
+						return
+					}
+					if pingErr == nil && early == 0 {
+						msg = "Ping returned nil although its frame never left"
+						return
+					}
+					lc.End.SetInBudget(-1)
+					// an expired context closes the connection (documented); if the call returned nil instead
+					// (the early Pong matched), the connection lives on and everything must still work
+					if pingErr == nil {
+						amu.Lock()
+						answer = true
+						amu.Unlock()
+						if err := lc.C.Ping(context.Background()); err != nil {
+							msg = "a later Ping failed: " + err.Error()
+							return
+						}
+					}
+					cd := e.Call(func() { lc.C.CloseNow() })
+					if !within(cd, 10*time.Second) {
+						msg = fmt.Sprintf("CloseNow did not return within 10 s after a Ping whose frame was stuck while %d Pongs with its payload arrived", early)
+					}
+				})
+				rec.Case(true, desc, "ping-stuck-in-transport-with-early-pongs-and-a-deadline")
 				if msg != "" {
 					failCase(t, "C15", desc, "%s", msg)
 				}
